@@ -263,4 +263,44 @@ theorem dftInverseNp_isMat {K : Type} [Field K] (p : Bool) (w winv : K) (n : Nat
   · simp only [dftInverseNp, npIfft, if_true, dftSum_eq, div_eq_mul_inv, Finset.sum_mul]
     apply Finset.sum_congr rfl; intro j _; ring
 
+theorem zip_map_self {α β : Type} (l : List α) (f : α → β) :
+    l.zip (l.map f) = l.map fun a => (a, f a) := by
+  induction l with
+  | nil => rfl
+  | cons a t ih => simp [ih]
+
+theorem ftInverseAxis_isMat {K : Type} [Field K] (e : Rat → K) (amp : Nat → K) (c : Nat → Rat)
+    (t : Rat) (sh p : Bool) (w winv : K) (n : Nat) :
+    IsMat (ftInverseAxis e amp c t sh p w winv n) n
+      (fun k j => e (preExp n sh p k) *
+        (if p then winv ^ (j * k) / (n : K) else w ^ (j * k) / (n : K)) *
+        (e (postExp p t (c j)) / amp j)) := by
+  intro f k
+  unfold ftInverseAxis
+  rw [dftInverseNp_isMat p w winv n _ k, Finset.mul_sum]
+  apply Finset.sum_congr rfl; intro j _; ring
+
+theorem ftSep_eq {K : Type} [Field K] [Inhabited K] (w : Nat → K) (e : Rat → K)
+    (amp : Nat → Nat → K) (c : Nat → Nat → Rat) (t : Nat → Rat) (plus : Bool)
+    (rshape axes : List Nat) (shiftOf : Nat → Bool) (x : Array K) :
+    ftForwardSepNd (fun n => some (w n, (w n)⁻¹)) e amp c t plus rshape axes (axes.map shiftOf) x
+      = some (applyAxes rshape (axes.reverse.map fun a =>
+          (a, rshape.getD a 1, ftForwardAxis e (amp a) (c a) (t a) (shiftOf a) plus
+            (w (rshape.getD a 1)) (w (rshape.getD a 1))⁻¹ (rshape.getD a 1))) x) ∧
+    ftInverseSepNd (fun n => some (w n, (w n)⁻¹)) e amp c t plus rshape axes (axes.map shiftOf) x
+      = some (applyAxes rshape (axes.reverse.map fun a =>
+          (a, rshape.getD a 1, ftInverseAxis e (amp a) (c a) (t a) (shiftOf a) plus
+            (w (rshape.getD a 1)) (w (rshape.getD a 1))⁻¹ (rshape.getD a 1))) x) := by
+  constructor
+  · simp only [ftForwardSepNd, Option.pure_def, Option.bind_eq_bind, Option.bind_some, zip_map_self,
+      ← List.map_reverse]
+    rw [mapM_some' (fun p : Nat × Bool => ((p.1, rshape.getD p.1 1, ftForwardAxis e (amp p.1) (c p.1) (t p.1) p.2 plus
+        (w (rshape.getD p.1 1)) (w (rshape.getD p.1 1))⁻¹ (rshape.getD p.1 1)) : Step K))]
+    simp [List.map_map, Function.comp_def]
+  · simp only [ftInverseSepNd, Option.pure_def, Option.bind_eq_bind, Option.bind_some, zip_map_self,
+      ← List.map_reverse]
+    rw [mapM_some' (fun p : Nat × Bool => ((p.1, rshape.getD p.1 1, ftInverseAxis e (amp p.1) (c p.1) (t p.1) p.2 plus
+        (w (rshape.getD p.1 1)) (w (rshape.getD p.1 1))⁻¹ (rshape.getD p.1 1)) : Step K))]
+    simp [List.map_map, Function.comp_def]
+
 end OdlModel.Fourier
